@@ -1,6 +1,7 @@
 """C01 -- compiled Lua behaves as the Sylt source denotes (reference interpreter vs Lua interpreter model)."""
 import collections
 import glob
+import json
 import os
 
 import lua_run
@@ -36,6 +37,10 @@ def build(ctx):
         lua_run.build()
     except Exception as e:
         return False, str(e)
+    ok, exe, out = vlib.build_ocaml("pres", "ExtractPres.v", "pres_driver.ml", "presmodel", includes=["rast_reader.ml"])
+    _m["pres"] = exe
+    if not ok:
+        return ok, out
     return True, ""
 
 
@@ -51,6 +56,10 @@ def gen_cases(ctx):
     n = 160 if ctx.tier == "quick" else 4000
     for i in range(n):
         out.append(("gen", prog_gen.program(vlib.rng(ctx.seed, "c01-%d" % i), 3 if i % 3 else 2)))
+    # programs inside the fragment of the preservation theorem (coq/Pres/Frag.v), stage 1 and stage 2 shapes
+    nf = 60 if ctx.tier == "quick" else 1500
+    for i in range(nf):
+        out.append(("frag%d" % (1 + i % 2), prog_gen.fragment_program(vlib.rng(ctx.seed, "c01-frag-%d" % i), 1 + i % 2)))
     return out
 
 
@@ -79,12 +88,13 @@ def canon_sem(s):
     return fin, trace, why
 
 
-def compare(ctx, srcs):
-    """-> list of (verdict, detail) per source: verdict in same|diff|skip"""
+def compare(ctx, srcs, pres=None):
+    """-> list of (verdict, detail) per source: verdict in same|diff|skip.
+    pres: optional dict, filled with index -> output line of the pres driver for every accepted program"""
     lines = ["nostd\t/main.sy\t/main.sy=%s" % vlib.hexs(p) for p in srcs]
     ph = vlib.harness("phases", lines, timeout_s=60)
     real = vlib.harness("compile", lines, timeout_s=60)
-    idx, mc, luas = [], [], []
+    idx, mc, luas, rawhex = [], [], [], []
     out = [("skip", "not accepted")] * len(srcs)
     for i, (p, r) in enumerate(zip(ph, real)):
         d, tail = resolved_io.parse_phases_line(p)
@@ -92,8 +102,15 @@ def compare(ctx, srcs):
             idx.append(i)
             mc.append(resolved_io.resolved_sexp(d["vars"], d["ordered"]))
             luas.append(vlib.unhex(r[3:]).decode("utf-8", "replace"))
+            rawhex.append(r[3:])
     sem = sem_run(mc)
     lua = lua_run.run_lua(luas, fuel=400000, timeout=120)
+    if pres is not None:
+        # the AST tie of the preservation theorem: parse(real chunk) == pre_block ++ emit_ast(lower(real resolver output)),
+        # and the fragment predicate, both evaluated by the extracted Coq code on every accepted program
+        pr = vlib.model(_m["pres"], [], ["%s\t%s" % (t, m) for t, m in zip(rawhex, mc)])
+        for i, x in zip(idx, pr):
+            pres[i] = x
     for i, s, l in zip(idx, sem, lua):
         if not s.startswith("SEM") or "READFAIL" in s:
             out[i] = ("skip", "reference interpreter could not read the program: " + s[:80])
@@ -118,7 +135,9 @@ def compare(ctx, srcs):
 
 def tie(ctx):
     cases = gen_cases(ctx)
-    res = compare(ctx, [c[1] for c in cases])
+    pres = {}
+    res = compare(ctx, [c[1] for c in cases], pres)
+    pres_tie(ctx, cases, res, pres)
     verdicts = collections.Counter(v for v, _ in res)
     skips = collections.Counter(d.split(" ")[0] if isinstance(d, str) else "?" for v, d in res if v == "skip")
     mism = [{"class": cases[i][0], "program": cases[i][1][:3000], "difference": d} for i, (v, d) in enumerate(res) if v == "diff"][:10]
@@ -131,6 +150,43 @@ def tie(ctx):
                     "non-trivial = accepted by the real compiler and run by both interpreters; distinct by source",
             "samples": samples,
             "distribution": {"verdicts": dict(verdicts), "skipped_because": dict(skips), "finals_when_equal": dict(finals)}}
+
+
+def pres_tie(ctx, cases, res, pres):
+    """tie component "emit_ast" + fragment coverage.  A mismatch means the theorem C01_fragment_preservation
+    (which is about pre_block ++ emit_ast code) does not speak about what the real compiler printed."""
+    by_class = collections.Counter()
+    in_frag = collections.Counter()
+    frag_verdicts = collections.Counter()
+    outcomes = collections.Counter()
+    bad = []
+    for i, line in sorted(pres.items()):
+        cls = cases[i][0]
+        by_class[cls] += 1
+        parts = dict(p.split("=", 1) for p in line.split(" ")[1:] if "=" in p) if line.startswith("PRES") else {}
+        ast = parts.get("ast", line[:60])
+        outcomes[ast.split(":")[0]] += 1
+        if ast != "ok":
+            bad.append({"class": cls, "program": cases[i][1][:3000], "pres_driver": line[:300]})
+        if parts.get("frag") == "1":
+            in_frag[cls] += 1
+            frag_verdicts[res[i][0] + ":" + (res[i][1] if isinstance(res[i][1], str) else "diff")] += 1
+    for b in bad[:3]:
+        ctx.brk("tie:emit_ast", json.dumps(b, ensure_ascii=False))
+    ctx.c01_pres = {
+        "emit_ast_tie": {"name": "emit_ast", "ok": not bad, "evaluations": len(pres), "mismatches": bad[:10],
+                         "outcomes": dict(outcomes),
+                         "rule": "for every accepted program of the tie: LuaParse.parse_lua Lua53 (the real compiler's whole output) "
+                                 "== ParseOk (pre_block ++ emit_ast (lower (real resolver output))), evaluated by the extracted Coq code"},
+        "programs_in_fragment": {"accepted_programs": len(pres), "in_fragment": sum(in_frag.values()),
+                                 "accepted_by_class": dict(by_class), "in_fragment_by_class": dict(in_frag),
+                                 "validation_verdicts_of_fragment_programs": dict(frag_verdicts),
+                                 "fragment": "coq/Pres/Frag.v `frag` (stage stated there), evaluated on the real resolver output"},
+    }
+
+
+def always(ctx):
+    return getattr(ctx, "c01_pres", {})
 
 
 def search(ctx):
